@@ -11,6 +11,7 @@ import (
 
 	"github.com/formancehq/ledger/verifh/ev"
 	"github.com/formancehq/ledger/verifh/lx"
+	"github.com/formancehq/ledger/verifh/pgsim"
 )
 
 // parseChart reads a chart JSON document back into the harness's specification (the
@@ -229,6 +230,7 @@ func Replay(path string) (int, error) {
 			StartState string
 			Elements   []string
 			Options    bulkOpts
+			Deadlock   *faultSpec
 		}
 		if err := json.Unmarshal(rf.Replay, &rp); err != nil {
 			return 2, err
@@ -246,7 +248,7 @@ func Replay(path string) (int, error) {
 			elems = append(elems, e)
 		}
 		r := ev.Start("C32", ev.LevelExploration, 2*time.Minute, 2*time.Minute)
-		c := &c32{r: r, outcomes: newCounter(), notes: newCounter(), samples: ev.NewSamples(1)}
+		c := &c32{r: r, outcomes: newCounter(), notes: newCounter(), faultStmts: newCounter(), samples: ev.NewSamples(1)}
 		states, _, stErr := c32States(ctx)
 		st, ok := states[rp.StartState]
 		if !ok {
@@ -256,15 +258,25 @@ func Replay(path string) (int, error) {
 		if err != nil {
 			return 2, err
 		}
-		solo, err := soloRun(ctx, st, elems)
+		solo, err := soloRun(ctx, st, elems, nil)
 		if err != nil {
 			return 2, err
 		}
-		soloTx, err := soloRunInTx(ctx, st, elems)
+		soloTx, _, err := soloRunInTx(ctx, st, elems, nil, false)
 		if err != nil {
 			return 2, err
 		}
-		c.check(ctx, st, startObs, bulkCase{State: rp.StartState, Elems: elems, Opts: rp.Options}, solo, soloTx)
+		bc := bulkCase{State: rp.StartState, Elems: elems, Opts: rp.Options}
+		base := &c32Ref{startObs: startObs, solo: solo, soloTx: soloTx, exact: true}
+		und := c.check(ctx, st, bc, func(map[pgsim.SeqKey]int64) (*c32Ref, error) { return base, nil })
+		if rp.Deadlock != nil && und != nil {
+			// the recorded fault run: the same bulk with one element a deadlock victim
+			fr := &faultRefs{ctx: ctx, start: st, elems: elems, state: rp.StartState, startObs: startObs,
+				solo: solo, soloTx: soloTx, undSeqs: und.seqs, cache: map[string]*c32Ref{}}
+			bc.Fault = &faultSpec{Elem: rp.Deadlock.Elem, At: rp.Deadlock.At}
+			e, mode := bc.Fault.Elem, bc.Opts.mode()
+			c.check(ctx, st, bc, func(drawn map[pgsim.SeqKey]int64) (*c32Ref, error) { return fr.get(mode, e, drawn) })
+		}
 		for k, v := range c.notes.snapshot() {
 			r.Note(fmt.Sprintf("%s (x%d)", k, v))
 		}
